@@ -133,28 +133,64 @@ def detect(pid, name, checks, tier):
     save(out, st)
 
 
+def readme_section(text, words):
+    """returns the body of the first markdown section whose heading contains one of the words"""
+    lines = text.splitlines()
+    for i, l in enumerate(lines):
+        if l.startswith("#") and any(w in l.lower() for w in words):
+            body = []
+            for m in lines[i + 1:]:
+                if m.startswith("#"):
+                    break
+                body.append(m)
+            return "\n".join(body).strip()
+    return ""
+
+
 def keep(pid, name):
     out, seedwt, wt = paths(pid, name)
     st = state(out)
     dst = "/verif/seeded/" + (name or pid)
     os.makedirs(dst, exist_ok=True)
     shutil.copy(os.path.join(out, "patch.diff"), dst)
+    if os.path.exists(os.path.join(out, "patch.orig.diff")):
+        shutil.copy(os.path.join(out, "patch.orig.diff"), dst)
     for f in st.get("demo_files", []):
-        shutil.copy(os.path.join(seedwt, f), os.path.join(dst, os.path.basename(f)))
+        src = os.path.join(seedwt, f)
+        if not os.path.exists(src):
+            src = os.path.join(out, os.path.basename(f))
+        shutil.copy(src, os.path.join(dst, os.path.basename(f)))
     for f in ("demo_cmd.txt", "README.md"):
         if os.path.exists(os.path.join(out, f)):
             shutil.copy(os.path.join(out, f), dst)
-    meta = {"property": pid, "name": name or pid, "packages": st.get("packages"),
-            "demo_files": st.get("demo_files"), "confirmed": st.get("confirmed"),
-            "what_i_ran": {"demo_without_patch": st.get("demo_without_patch", {}).get("cmd"),
-                           "existing_tests_pass": st.get("existing_tests", {}).get("pass"),
-                           "demo_with_patch_rc": st.get("demo_with_patch", {}).get("rc")},
-            "detection": st.get("detect", {})}
-    readme = os.path.join(out, "README.md")
-    if os.path.exists(readme):
-        meta["needs_to_manifest"] = "see README.md (seeder's description)"
+    readme = ""
+    if os.path.exists(os.path.join(out, "README.md")):
+        readme = open(os.path.join(out, "README.md")).read()
+    title = readme.splitlines()[0].lstrip("# ").strip() if readme else ""
+    det = st.get("detect", {})
+    meta = {"property": pid, "name": name or pid, "title": title,
+            "breaks": readme_section(readme, ["what it breaks", "what breaks"])[:1500],
+            "needs_to_manifest": readme_section(readme, ["needs"])[:2500],
+            "packages": st.get("packages"),
+            "demo_files": [{"file": os.path.basename(f), "goes_to": f} for f in st.get("demo_files", [])],
+            "applies_to_repo_commit": st.get("reapply", {}).get("head"),
+            "rebased": os.path.exists(os.path.join(out, "patch.orig.diff")),
+            "confirmed": st.get("confirmed"),
+            "what_i_ran": {
+                "worktree": "fresh scratch worktree of /repo (git worktree add --detach), removed afterwards",
+                "demo_without_patch": {"cmd": st.get("demo_without_patch", {}).get("cmd"), "rc": st.get("demo_without_patch", {}).get("rc")},
+                "patch_applies": st.get("apply", {}).get("rc") == 0,
+                "build_with_and_without_verif_tag_rc": st.get("build", {}).get("rc"),
+                "existing_tests_of_touched_packages_pass": st.get("existing_tests", {}).get("pass"),
+                "existing_tests_note": st.get("existing_tests", {}).get("note", ""),
+                "demo_with_patch_rc": st.get("demo_with_patch", {}).get("rc"),
+                "reapplied_to_head": st.get("reapply", {}),
+                "checks": "VERIF_REPO_DIR=<patched worktree> /verif/check <id> (tools/seedflow.py detect)"},
+            "detection": det,
+            "detected_by": sorted(k for k, v in det.items() if v.get("detected")),
+            "missed_by": sorted(k for k, v in det.items() if not v.get("detected"))}
     json.dump(meta, open(os.path.join(dst, "meta.json"), "w"), indent=1)
-    print("kept", dst)
+    print("kept", dst, "detected_by", meta["detected_by"])
 
 
 if __name__ == "__main__":
